@@ -1609,9 +1609,12 @@ class rx:
             for _, params in full_groupby(self._fn_params, lambda x: id(x.owner)):
                 fps = [p.name for p in params if p in self._root._fn_params]
                 if fps:
-                    params[0].owner.param._watch(self._invalidate_obj, fps, precedence=-1)
+                    params[0].owner.param._watch(self._invalidate_obj, fps, precedence=-2)
+        # Invalidation only marks the pipeline dirty, so it runs ahead of
+        # the other internal watchers (precedence -1), e.g. the one that
+        # syncs a parameter linked to this expression and reads its value
         for _, params in full_groupby(self._internal_params, lambda x: id(x.owner)):
-            params[0].owner.param._watch(self._invalidate_current, [p.name for p in params], precedence=-1)
+            params[0].owner.param._watch(self._invalidate_current, [p.name for p in params], precedence=-2)
 
     def _invalidate_current(self, *events):
         if all(event.obj is self._trigger for event in events):
